@@ -269,7 +269,19 @@ def _describe(rows, ra, dec):
                            for k, (p, f) in enumerate(rows)) + "]"
 
 
-def _run_perms(call, templates, snap, oracle, ctx, tag, where, rows, ra, dec, extra_first=None):
+def _connected(group_uuids, link):
+    """is the group chain-connected under the symmetric link predicate (uuid, uuid) -> bool"""
+    todo, seen = [group_uuids[0]], {group_uuids[0]}
+    while todo:
+        u = todo.pop()
+        for v in group_uuids:
+            if v not in seen and (link(u, v) or link(v, u)):
+                seen.add(v)
+                todo.append(v)
+    return len(seen) == len(group_uuids)
+
+
+def _run_perms(call, templates, snap, oracle, ctx, tag, where, rows, ra, dec, extra_first=None, link=None):
     """all permutations of the rows through `call(list_of_sources)`; one violation per class at most.
     oracle: expected partition or None (then only order independence against the first permutation)"""
     n = len(templates)
@@ -307,6 +319,12 @@ def _run_perms(call, templates, snap, oracle, ctx, tag, where, rows, ra, dec, ex
         if part is None:
             outcome = "broken"
             continue
+        if link is not None:
+            for g in part:
+                if len(g) > 1 and not _connected(sorted(g), link):
+                    report("disconnected_group", "group %r is not chain-connected: some member is linked to no other member by a chain of links below the linking length" % (
+                        sorted(int(u[-2:]) for u in g),), perm, container)
+                    break
         if oracle is not None and part != oracle:
             report("connectivity", "groups %r, expected (union-find of separations <= eps) %r" % (
                 _fmt_part(part), _fmt_part(oracle)), perm, container)
@@ -451,8 +469,31 @@ def ev_ellip(case, ctx):
             templates = _templates(rows, ra, dec, size)
             snap = _snapshot(templates)
             where = "loc=%s,eps=%g',mask=%d,flux=%s,dist=%s" % (loc, eps, mask, flux, dist_name)
+            by_uuid = {t.uuid: t for t in templates}
+            if dist_name == "sky_dist":
+                idx = {t.uuid: rows[k][0] for k, t in enumerate(templates)}
+                link = lambda u, v: bool(sep[idx[u]][idx[v]] <= eps_deg) or idx[u] == idx[v]
+            else:
+                def link(u, v):
+                    with np.errstate(all="ignore"):
+                        r_ = cluster.norm_dist(by_uuid[u], by_uuid[v])
+                    return bool(r_ < e)
             outcome, bad = _run_perms(lambda cat: cluster.regroup(cat, eps=e, far=None, dist=dist), templates, snap, None,
-                                      ctx, "ellip", where, rows, ra, dec)
+                                      ctx, "ellip", where, rows, ra, dec, link=link)
+            if dist_name == "norm_dist" and flux == "distinct" and len(rows) >= 3:
+                # one source of zero size (an unresolved source listed with its deconvolved size): its normalised distances are
+                # undefined, it is linked to nothing; every group must still be chain-connected
+                t2 = [copy.copy(t) for t in templates]
+                t2[1].a = t2[1].b = 0.0
+                by2 = {t.uuid: t for t in t2}
+
+                def link2(u, v):
+                    with np.errstate(all="ignore"):
+                        r_ = cluster.norm_dist(by2[u], by2[v])
+                    return bool(r_ < e)
+                with np.errstate(all="ignore"):
+                    _run_perms(lambda cat: cluster.regroup(cat, eps=e, far=None, dist=dist), t2, _snapshot(t2), None,
+                               ctx, "ellip_zero_size", where, rows, ra, dec, link=link2)
             if len(rows) >= 2:
                 ctx.nontrivial("ellip," + where)
             ctx.outcome("ellip:%s:%s%s" % (dist_name, outcome, ":VIOLATION" if bad else ""))
